@@ -5,6 +5,8 @@
 //! `evaluate` run in an emulated constant environment (so that the model's `eval` parameter is the REAL
 //! evaluator), the staged prediction "model `assemble` + real `encode`" of what the whole pipeline does
 //! with one instruction statement, and the real pipeline itself (`Context` exactly as `bin/assembler.rs`).
+// catch-all arms keep the harness compiling when the crate adds a variant to one of its error enums (the outcome is then `unknown:<Debug>`)
+#![allow(unreachable_patterns)]
 use std::error::Error;
 use std::fmt::Write as _;
 use std::path::PathBuf;
@@ -360,6 +362,7 @@ pub fn eval_out(arg: &Argument<'static>, ctx: &Context) -> String
 		Ok(Err(EvalError::NoSuchVariable{name, ..})) => {let _ = write!(o, "N {} ", hex(name.as_bytes()));},
 		Ok(Err(EvalError::BadType{kind, op})) => {let _ = write!(o, "EB {} {} ", u8::from(kind), u8::from(op));},
 		Ok(Err(EvalError::Overflow(e))) => {let _ = write!(o, "EO {} ", hex(format!("{e:?}").as_bytes()));},
+		Ok(Err(e)) => {let _ = write!(o, "EO {} ", hex(format!("unknown:{e:?}").as_bytes()));},
 	}
 	ser_arg(&a, &mut o);
 	o
